@@ -1,5 +1,5 @@
-\* 2^17 integers around zero + boundaries; exported to the harness (direction A)
-CONSTANTS NBlocks = 128  EXPORT = TRUE
+\* 2^16 integers around zero + boundaries; exported to the harness (direction A)
+CONSTANTS NBlocks = 64  EXPORT = TRUE
 INIT Init
 NEXT Next
 INVARIANT Inv
